@@ -79,6 +79,12 @@ ARGS = [
         "let n{i} = pre % 7; let mut pulled{i} = 0u64; let cnt{i} = ::cglue::callback::FeedCallback::feed_into((0..n{i}).map(|k| mix(pre, k)).inspect(|_| pulled{i} += 1), a{i}) as u64; "
         "if cnt{i} != pulled{i} { self.sink.model.lock().unwrap().push(format!(\"feed_into reported {} items offered to the callback, {} were taken from the source\", cnt{i}, pulled{i})); } d = mix(d, cnt{i});",
         post="out = mix(out, got{i}.dg());", c_kind="callback"),
+    # the implementor hands the items over with Extend: the caller's "stop" must still end the delivery
+    Arg("callback_extend", "OpaqueCallback<u64>",
+        "let mut got{i}: Vec<u64> = vec![]; let stop{i} = r.below(6); let mut after{i} = 0u32; let mut done{i} = false; "
+        "let mut f{i} = |v: u64| { if done{i} { after{i} += 1; } got{i}.push(v); let c = got{i}.len() <= stop{i}; if !c { done{i} = true; } c };", "(&mut f{i}).into()",
+        "let mut a{i} = a{i}; let n{i} = pre % 7; ::core::iter::Extend::extend(&mut a{i}, (0..n{i}).map(|k| mix(pre, k))); d = mix(d, n{i});",
+        post="if after{i} > 0 { sk.model.lock().unwrap().push(format!(\"the callback was invoked {} more time(s) after it had answered stop\", after{i})); } out = mix(out, got{i}.dg());", c_kind="callback"),
     # a source that is not fused (None in the middle), drained in rounds: what the implementor sees must be what the source yielded
     Arg("citer_rounds", "CIterator<u64>",
         "let seed{i} = r.next(); let srclog{i}: ::std::cell::RefCell<Vec<Option<u64>>> = Default::default(); let mut k{i} = 0u64; "
@@ -95,7 +101,7 @@ ARGS = [
 ]
 ARG = {a.key: a for a in ARGS}
 # shapes whose callee code needs the pre-state before the event is logged
-NEEDS_PRE = {"callback", "citer", "callback_feed"}
+NEEDS_PRE = {"callback", "citer", "callback_feed", "callback_extend"}
 
 
 class Ret:
